@@ -258,13 +258,14 @@ func (c *Ctx) reinlineRule(reach []*core.FuncInfo) {
 			// atoms of a raise condition
 			type atoms struct{ dirEq, complexOK, other bool }
 			var dirArgs []ast.Expr
+			flagVal := false // the value the returned flag has before the assignment under evaluation
 			var eval func(e ast.Expr, dirEq, cx bool, flag types.Object) (bool, bool)
 			eval = func(e ast.Expr, dirEq, cx bool, flag types.Object) (bool, bool) {
 				e = core.Unparen(e)
 				switch x := e.(type) {
 				case *ast.Ident:
 					if flag != nil && core.ObjOf(info, x) == flag {
-						return false, true
+						return flagVal, true
 					}
 					if cc := complexCall(x); cc != nil {
 						return eval(cc, dirEq, cx, flag)
@@ -318,7 +319,11 @@ func (c *Ctx) reinlineRule(reach []*core.FuncInfo) {
 				}
 				return false, false
 			}
-			var raiseConds []func(dirEq, cx bool) (bool, bool)
+			type raise struct {
+				rc     func(dirEq, cx bool) (bool, bool)
+				assign bool // flag = <expr>: the old value must survive; if <cond> { flag = true } keeps it by construction
+			}
+			var raiseConds []raise
 			ast.Inspect(fi.Decl.Body, func(nd ast.Node) bool {
 				switch x := nd.(type) {
 				case *ast.AssignStmt:
@@ -330,7 +335,7 @@ func (c *Ctx) reinlineRule(reach []*core.FuncInfo) {
 					}
 					flag := core.ObjOf(info, x.Lhs[0])
 					rhs := x.Rhs[0]
-					raiseConds = append(raiseConds, func(dirEq, cx bool) (bool, bool) { return eval(rhs, dirEq, cx, flag) })
+					raiseConds = append(raiseConds, raise{func(dirEq, cx bool) (bool, bool) { return eval(rhs, dirEq, cx, flag) }, true})
 				case *ast.IfStmt:
 					if x.Pos() < call.Pos() || x.Init != nil {
 						return true
@@ -342,7 +347,7 @@ func (c *Ctx) reinlineRule(reach []*core.FuncInfo) {
 						if as, ok := bs.(*ast.AssignStmt); ok && len(as.Lhs) == 1 && len(as.Rhs) == 1 && c.flowsToReturn(fi, as.Lhs[0]) {
 							if tv, isC := info.Types[as.Rhs[0]]; isC && tv.Value != nil && tv.Value.String() == "true" {
 								cond := x.Cond
-								raiseConds = append(raiseConds, func(dirEq, cx bool) (bool, bool) { return eval(cond, dirEq, cx, nil) })
+								raiseConds = append(raiseConds, raise{func(dirEq, cx bool) (bool, bool) { return eval(cond, dirEq, cx, nil) }, false})
 							}
 						}
 					}
@@ -350,7 +355,8 @@ func (c *Ctx) reinlineRule(reach []*core.FuncInfo) {
 				return true
 			})
 			ok, why := false, "no assignment to the returned flag after the write looks at isAnalyzedAsComplex() of the schema written"
-			for _, rc := range raiseConds {
+			for _, rr := range raiseConds {
+				rc := rr.rc
 				dirArgs = nil
 				good, decided := true, true
 				for _, dirEq := range []bool{false, true} {
@@ -364,11 +370,28 @@ func (c *Ctx) reinlineRule(reach []*core.FuncInfo) {
 						}
 					}
 				}
+				// monotone: a flag already raised (by the re-pointing of other referers) must stay raised
+				monotone := true
+				flagVal = rr.assign
+				for _, dirEq := range []bool{false, true} {
+					for _, cx := range []bool{false, true} {
+						if v, k := rc(dirEq, cx); rr.assign && k && !v {
+							monotone = false
+						}
+					}
+				}
+				flagVal = false
+				switch {
+				case decided && good && !monotone:
+					good = false
+					why = "the assignment can clear a flag that was already raised (the flag is not on the left of an ||): a re-run requested because other referers were re-pointed to an anonymous pointer is cancelled when the schema is not complex"
+				}
 				switch {
 				case !decided:
 					why = "the condition raising the returned flag is not a combination of path.Dir(<key>) == \"#/definitions\" and isAnalyzedAsComplex() of the schema written"
-				case !good:
+				case !good && monotone:
 					why = "the returned flag is not raised exactly when the written schema is complex and its new place is not a top-level definition"
+				case !good:
 				default:
 					placeOK := len(dirArgs) > 0
 					for _, a := range dirArgs {
